@@ -139,6 +139,11 @@ impl NetcodeServerTransport {
     pub fn verif_netcode_server(&self) -> &NetcodeServer {
         &self.netcode_server
     }
+
+    /// Address the transport's socket is bound to.
+    pub fn verif_socket_addr(&self) -> SocketAddr {
+        self.socket.local_addr().expect("bound socket")
+    }
 }
 
 fn handle_server_result(server_result: ServerResult, socket: &UdpSocket, reliable_server: &mut RenetServer) {
